@@ -1541,7 +1541,9 @@ impl StorageEngine {
                 _ => return Err(StorageError::WrongType.into()),
             }
         } else {
-            return Ok(Vec::new());
+            // Missing first key: the difference is empty, but the other keys
+            // are still type-checked below
+            HashSet::new()
         };
         drop(shard_guard); // Release lock early
         
